@@ -70,3 +70,38 @@ Proof.
   destruct (esteps_hist2 true true cfg s1 s2 iss1 dead1 Hw HI1 H1 Hs) as (HI2 & _).
   by eapply (direct_dies_with_any_removal true true cfg s1 s2 dh si dd).
 Qed.
+
+(* ---------------------------------------------------------------- capacity (C12) *)
+
+Lemma estep_capacity ac wr cfg s s' : Inv s -> estep ac wr cfg s s' -> cap s <= cap s' /\ Inv s'.
+Proof.
+  intros HI Hstep. destruct Hstep as [s vs s' h Hvs Hp|s vs s' h Hvs Hp|s k h s' row Hk Hd|s s' HI' (Ea & Ec & _)].
+  - destruct (push_spec cfg s vs HI Hvs) as [Ho Hi]. rewrite Hp in Ho, Hi. split; [|done].
+    inversion Ho as [h0 x Hlt Hh Hx|n h0 x Hfull Hn Hnc Hneq Hh Hx|]; try clear Hneq; subst; cbn; lia.
+  - pose proof (push_within_spec cfg s vs HI Hvs) as Hs. case_decide as Hlt; [|by rewrite Hp in Hs].
+    destruct Hs as (h0 & x & Hpw & HI' & Hc & _). rewrite Hp in Hpw. injection Hpw as -> _. split; [lia|done].
+  - pose proof (destroy_cases cfg k s h HI Hk) as Hc. rewrite Hd in Hc.
+    inversion Hc as [| |d e0 va vs' He Hkind Hva Hvs HI']; subst. split; [cbn; lia|done].
+  - split; [lia|done].
+Qed.
+
+(** capacity() never decreases along any history, and len() is the number of stored handles throughout. *)
+Theorem esteps_capacity ac wr cfg s s' : Inv s -> esteps ac wr cfg s s' ->
+  cap s <= cap s' /\ Inv s' /\ len s' = length (ents s') /\ len s' <= cap s'.
+Proof.
+  intros HI Hs. induction Hs as [s|s s1 s' H1 Hs IH].
+  - split_and!; [lia|done|by rewrite (i_lents s HI)|apply (i_le s HI)].
+  - destruct (estep_capacity ac wr cfg s s1 HI H1) as [Hc HI1]. destruct (IH HI1) as (Hc' & ? & ? & ?). split_and!; try done. lia.
+Qed.
+
+Theorem run_capacity_monotone cfg d qs ops1 ops2 st1 st2 i a w1 w2 s1 s2 :
+  hist_case cfg d qs (ops1 ++ ops2) = true ->
+  run_to cfg d qs rs0 ops1 = Some st1 -> run_to cfg d qs st1 ops2 = Some st2 ->
+  worlds st1 !! i = Some (Some w1) -> worlds st2 !! i = Some (Some w2) -> w1 !! a = Some s1 -> w2 !! a = Some s2 ->
+  cap s1 <= cap s2 /\ len s2 = length (ents s2) /\ len s2 <= cap s2.
+Proof.
+  intros Hc R1 R2 W1 W2 S1 S2.
+  destruct (run_two_points cfg d qs ops1 ops2 st1 st2 i a w1 w2 s1 s2 Hc R1 R2 W1 W2 S1 S2) as (Hw & Hr1 & Hs).
+  destruct (sreach_hist2 true true cfg s1 Hw Hr1) as (HI1 & _).
+  destruct (esteps_capacity true true cfg s1 s2 HI1 Hs) as (? & _ & ? & ?). done.
+Qed.
